@@ -347,8 +347,12 @@ func (db *DB) Merge() error {
 					skipEntry = true
 				}
 
-				// check if we have a new entry with same key and bucket
-				if r, _ := db.getRecordFromKey(entry.Meta.bucket, entry.Key); r != nil && !skipEntry {
+				// check if we have a new entry with same key and bucket. Only a
+				// key/value record can be superseded through the key/value index:
+				// a list, set or sorted-set record whose bucket name and key also
+				// exist as a key/value pair was dropped here, and the structure
+				// lost those elements at the next Open.
+				if r, _ := db.getRecordFromKey(entry.Meta.bucket, entry.Key); r != nil && !skipEntry && entry.Meta.ds == DataStructureBPTree {
 					if r.H.fileID > int64(pendingMergeFId) {
 						skipEntry = true
 					} else if r.H.fileID == int64(pendingMergeFId) && r.H.dataPos > uint64(off) {
